@@ -238,6 +238,20 @@ func (h *harness) fields() []*protomodel.Field {
 
 // genDoc draws a document. reject != "" when the reference predicts that the engine must refuse it.
 func (h *harness) genDoc(allowBad bool) (doc *structpb.Struct, reject string) {
+	doc, reject = h.genDoc0(allowBad)
+	if !allowBad && reject != "" {
+		// the caller wants a valid document: repair the declared fields the schema would refuse
+		for _, f := range h.m.order {
+			if pv := pathValue(doc, f); !isNull(pv) && !kindOK(pv, poolType(f)) && poolType(f) == tINTEGER {
+				setPath(doc, f, structpb.NewNumberValue(7))
+			}
+		}
+		reject = h.predictReject(doc)
+	}
+	return doc, reject
+}
+
+func (h *harness) genDoc0(allowBad bool) (doc *structpb.Struct, reject string) {
 	rt := h.rt
 	doc = &structpb.Struct{Fields: map[string]*structpb.Value{}}
 	if rapid.IntRange(0, 19).Draw(rt, "emptyDoc") == 0 {
@@ -679,6 +693,10 @@ func (h *harness) genCmp(label string) cmpT {
 			c.val = cloneValue(held[rapid.IntRange(0, len(held)-1).Draw(rt, label+"heldIdx")])
 		} else {
 			c.val = genFieldValue(rt, t, label+"v")
+		}
+		if t == tINTEGER && !kindOK(c.val, t) {
+			// operands are always proper integers (a non-integral operand for an INTEGER field is refused or truncated: K19b)
+			c.val = structpb.NewNumberValue(rapid.SampledFrom(intVals).Draw(rt, label+"vint"))
 		}
 	}
 	return c
